@@ -1533,10 +1533,10 @@ def run(ctx):
     ndosini = 14 if quick else 56
     jobs = [copy.deepcopy(MINIMAL), copy.deepcopy(MINIMAL_DUP), copy.deepcopy(MINIMAL_ENVCASE),
             copy.deepcopy(MINIMAL_DSL), copy.deepcopy(MINIMAL_SHADOW), copy.deepcopy(MINIMAL_DOSINI)] + \
-           [gen_dosini_package(ctx.rng, "i%d" % i) for i in range(ndosini)] + \
            [gen_package(ctx.rng, "j%d" % i) for i in range(njobs)] + \
            [gen_shadow_package(ctx.rng, "s%d" % i) for i in range(nshadow)] + \
-           [gen_dsl_package(ctx.rng, "d%d" % i) for i in range(ndsl)]
+           [gen_dsl_package(ctx.rng, "d%d" % i) for i in range(ndsl)] + \
+           [gen_dosini_package(ctx.rng, "i%d" % i) for i in range(ndosini)]
     ctx.rng.shuffle(jobs)
     # a sample is loaded a second time at the end of every child process (names collide across the packages:
     # the generators draw component / variable / environment names from small pools)
@@ -1603,10 +1603,10 @@ def replay(ctx, doc):
     if case.get("kind") == "dsl-inprocess":
         check_dsl_inprocess(ctx, [case["doc"]], nperm=32, extra_seeds=case.get("perm_seeds", []))
         return
-    scratch = tempfile.mkdtemp(prefix="c15-")
     if case.get("kind") == "dosini-listing":
         check_dosini_listing(ctx, [case["doc"]], norders=24)
         return
+    scratch = tempfile.mkdtemp(prefix="c15-")
     job = {k: v for k, v in case.items() if k not in ("hashseeds", "visit_orders", "listing_orders")}
     seeds = list(dict.fromkeys(list(case.get("hashseeds", [])) + list(range(16))))
     check_visit_orders(ctx, [job], norders=24)
